@@ -180,6 +180,25 @@ func (s *c10State) resolve(ev string) string {
 		}
 		return strings.Join(f, ":")
 	}
+	if k == "wdl" && len(f) == 4 { // every entry relative to the unfrozen record of its own peer
+		ps, as := strings.Split(f[2], "+"), strings.Split(f[3], "+")
+		for i := range as {
+			if i >= len(ps) {
+				break
+			}
+			u := s.o.unfreeze(f[1], ps[i])
+			switch as[i] {
+			case "all":
+				as[i] = strconv.FormatUint(u, 10)
+			case "over":
+				as[i] = strconv.FormatUint(u+1, 10)
+			case "half":
+				as[i] = strconv.FormatUint((u+1)/2, 10)
+			}
+		}
+		f[3] = strings.Join(as, "+")
+		return strings.Join(f, ":")
+	}
 	return ev
 }
 
@@ -278,19 +297,39 @@ func (y *c10Sys) c11Transition(s *c10State, st *c10Step) []c10Viol {
 				m.Free[k] += pos
 			}
 		}
-	case "wd", "wd2":
-		a, p := st.f[1], st.f[2]
-		k := a + "|" + p
-		amt, _ := strconv.ParseUint(st.f[3], 10, 64)
-		tot := amt * n
-		if tot > pre.unfreeze(a, p) {
-			vs = append(vs, c10Viol{"C11:withdraw-exceeds-unfrozen-record:" + st.kind, fmt.Sprintf("%s withdrew %d of %s with only %d unfrozen", a, tot, p, pre.unfreeze(a, p))})
-		}
-		if tot > m.Free[k] {
-			vs = append(vs, c10Viol{"C11:withdraw-of-frozen-stake:" + st.kind, fmt.Sprintf("%s withdrew %d of %s; the reference model has only %d unfrozen", a, tot, p, m.Free[k])})
-			m.Free[k] = 0
+	case "wd", "wd2", "wdl":
+		// one withdraw call: per named peer the amounts of all its entries together
+		// are what the call takes out of that peer's unfrozen record
+		a := st.f[1]
+		var peers []string
+		per := map[string]uint64{}
+		var tot uint64
+		if st.kind == "wdl" {
+			as := strings.Split(st.f[3], "+")
+			for i, p := range strings.Split(st.f[2], "+") {
+				amt, _ := strconv.ParseUint(as[i], 10, 64)
+				if _, seen := per[p]; !seen {
+					peers = append(peers, p)
+				}
+				per[p] += amt
+				tot += amt
+			}
 		} else {
-			m.Free[k] -= tot
+			amt, _ := strconv.ParseUint(st.f[3], 10, 64)
+			peers, tot = []string{st.f[2]}, amt*n
+			per[st.f[2]] = tot
+		}
+		for _, p := range peers {
+			k := a + "|" + p
+			if per[p] > pre.unfreeze(a, p) {
+				vs = append(vs, c10Viol{"C11:withdraw-exceeds-unfrozen-record:" + st.kind, fmt.Sprintf("%s withdrew %d of %s with only %d unfrozen", a, per[p], p, pre.unfreeze(a, p))})
+			}
+			if per[p] > m.Free[k] {
+				vs = append(vs, c10Viol{"C11:withdraw-of-frozen-stake:" + st.kind, fmt.Sprintf("%s withdrew %d of %s; the reference model has only %d unfrozen", a, per[p], p, m.Free[k])})
+				m.Free[k] = 0
+			} else {
+				m.Free[k] -= per[p]
+			}
 		}
 		if post.Ont[a]-pre.Ont[a] != tot || pre.OntGov-post.OntGov != tot {
 			vs = append(vs, c10Viol{"C11:withdraw-pays-wrong-amount:" + st.kind, fmt.Sprintf("withdraw of %d moved %d to %s and %d out of governance", tot, post.Ont[a]-pre.Ont[a], a, pre.OntGov-post.OntGov)})
@@ -339,7 +378,7 @@ func (y *c10Sys) c11Transition(s *c10State, st *c10Step) []c10Viol {
 			y.r.Class("epoch:peer-left-pool")
 		}
 	}
-	if st.kind == "wd" || st.kind == "wd2" {
+	if st.kind == "wd" || st.kind == "wd2" || st.kind == "wdl" {
 		y.r.Class("withdraw:paid")
 	}
 	return vs
@@ -606,7 +645,7 @@ func (y *c10Sys) menu(s *c10State) []string {
 	add(live("P8"), "auth:A2:P8:1000")
 	add(live("P9"), "auth:A1:P9:500")
 	add(wide && live("P8"), "auth:A1:P8:1000")
-	add(wide && live("P8"), "auth2:A1:P8:500")
+	add((wide || c11) && live("P8"), "auth2:A1:P8:500") // one call whose peer list names the node twice
 	add(wide, "auth:A1:P1:500")
 	add(wide && live("P8"), "auth:O2:P8:500")
 	add(wide && !live("P8"), "auth:A1:P8:500") // refusal path
@@ -616,7 +655,7 @@ func (y *c10Sys) menu(s *c10State) []string {
 	// more than was authorized in this epoch: the part beyond NewPos comes out of the effective pos
 	add((wide || c11) && active("A1", "P8"), "unauth:A1:P8:1000")
 	add((wide || c11) && active("A1", "P9"), "unauth:A1:P9:1000")
-	add(wide && active("A1", "P8"), "unauth2:A1:P8:500")
+	add((wide || c11) && active("A1", "P8"), "unauth2:A1:P8:500")
 	add(wide && active("O2", "P8"), "unauth:O2:P8:500")
 	add(wide && active("A1", "P1"), "unauth:A1:P1:500")
 	add(wide && active("A1", "P8"), "unauth!:A1:P8:500")
@@ -634,6 +673,7 @@ func (y *c10Sys) menu(s *c10State) []string {
 	add(o.Black["P8"] && (wide || c11), "white:P8")
 	add(wide && o.Black["P1"], "white:P1")
 	if c11 || wide {
+		unfrozen := map[string][]string{} // actor -> peers on which it has an unfrozen record (sorted)
 		var ks []string
 		for k := range o.Auth {
 			ks = append(ks, k)
@@ -650,10 +690,34 @@ func (y *c10Sys) menu(s *c10State) []string {
 			}
 			add(ai.WithdrawUnfreezePos > 0, "wd:"+ap[0]+":"+ap[1]+":all")
 			add(wide && ai.WithdrawUnfreezePos > 1, "wd:"+ap[0]+":"+ap[1]+":half")
-			add(wide && ai.WithdrawUnfreezePos > 0, "wd2:"+ap[0]+":"+ap[1]+":all")
-			add(wide && ai.WithdrawUnfreezePos > 1, "wd2:"+ap[0]+":"+ap[1]+":half")
+			// one withdraw call that names the node twice: twice the whole record (must be
+			// refused), twice half of it (pays the record once)
+			add(ai.WithdrawUnfreezePos > 0, "wd2:"+ap[0]+":"+ap[1]+":all")
+			add(ai.WithdrawUnfreezePos > 1, "wd2:"+ap[0]+":"+ap[1]+":half")
+			if ai.WithdrawUnfreezePos > 0 {
+				unfrozen[ap[0]] = append(unfrozen[ap[0]], ap[1])
+			}
 			add(wide && ai.WithdrawUnfreezePos > 0, "wd!:"+ap[0]+":"+ap[1]+":all")
 			add(ai.WithdrawConsensusPos+ai.WithdrawCandidatePos > 0 || (wide && ai.ConsensusPos+ai.CandidatePos+ai.NewPos > 0), "wd:"+ap[0]+":"+ap[1]+":over")
+		}
+		if c11 {
+			// one withdraw call over two different nodes (and one of them twice, not adjacent)
+			var as []string
+			for a := range unfrozen {
+				as = append(as, a)
+			}
+			sort.Strings(as)
+			for _, a := range as {
+				ps := unfrozen[a]
+				for i := 0; i < len(ps); i++ {
+					for j := i + 1; j < len(ps); j++ {
+						p, q := ps[i], ps[j]
+						add(true, "wdl:"+a+":"+p+"+"+q+":all+all")
+						add(true, "wdl:"+a+":"+p+"+"+q+":all+over") // refused as a whole
+						add(o.unfreeze(a, p) > 1, "wdl:"+a+":"+p+"+"+q+"+"+p+":half+all+half")
+					}
+				}
+			}
 		}
 		add(live("P8"), "addinit:P8:500")
 		add(item("P8") != nil, "redinit:P8:500")
@@ -715,9 +779,12 @@ func c10Scenarios(prop string, thorough bool) []c10Scenario {
 	// S6: a node paid by the CANDIDATE loop whose received authorization exceeds its own init pos (TotalPos > InitPos)
 	// and whose owner shares income with the authorizers
 	s6 := cat(s1, "auth:O2:P8:40000", "auth:A2:P8:500", "commit", "income:1000000007", "commit", "income:1000000007")
+	// S7: an authorizer with unfrozen stake on two nodes and active stake on both besides (its total stake
+	// covers more than any one unfrozen record): the root for withdraw calls with several entries
+	s7 := cat(s2, "auth:A1:P8:500", "auth:A1:P9:500", "unauth:A1:P8:500", "unauth:A1:P9:500")
 	out := []c10Scenario{{"F/S0", "F", nil}, {"F/S1", "F", s1}, {"F/S2", "F", s2}, {"F/S5", "F", s5}, {"H/S6", "H", s6}}
 	if prop == "C11" {
-		out = append(out, c10Scenario{"F/S3", "F", s3}, c10Scenario{"F/S4", "F", s4})
+		out = append(out, c10Scenario{"F/S3", "F", s3}, c10Scenario{"F/S4", "F", s4}, c10Scenario{"F/S7", "F", s7})
 		out = append(out, c10Scenario{"U/S0", "U", nil}, c10Scenario{"U/S2", "U", s2})
 		// Z: the first settlement with any stake divides by a zero stake (see the
 		// report / C12); the scenario stays within one epoch
@@ -914,7 +981,11 @@ func c10Describe(y *c10Sys, depth string) {
 	for _, sc := range y.scens {
 		names = append(names, sc.name)
 	}
-	menu := "pruned menu = ops relevant to the property, one amount each; wide menu = all governance ops, several amounts, duplicate-entry lists, wrong-witness variants, non-admin/cycle commit, time ticks"
+	menu := "pruned menu = ops relevant to the property, one amount each"
+	if y.prop == "C11" {
+		menu += ", plus calls with several list entries: authorizeForPeer/unAuthorizeForPeer naming one node twice, withdraw naming one node twice (twice the whole unfrozen record, twice half of it), withdraw over every pair of nodes on which the caller has an unfrozen record (all+all, all+one-too-many, half+all+half with the first node named again)"
+	}
+	menu += "; wide menu = all governance ops, several amounts, duplicate-entry lists, wrong-witness variants, non-admin/cycle commit, time ticks"
 	r.Bound(fmt.Sprintf("7 genesis peers (K=7) + 2 candidate nodes, 2 owners, 2 authorizers, admin, dapp address; scenario roots %s (fixture/prepared history, all reached through real calls from a 7-peer VBFT genesis and six commitDpos); BFS after each root: %s; %s",
 		strings.Join(names, ","), depth, menu))
 	if y.prop == "C10" {
@@ -922,7 +993,7 @@ func c10Describe(y *c10Sys, depth string) {
 		r.Assume("income is measured from balances (not from the contract's splitFee counter); ONG arriving during commitDpos is governance's unbound share transferred by the ONT contract")
 		r.Assume("the solo network gives all ONG to the bookkeeper; the fixture moves half of it to the ONT contract (as on every other network) so that governance's unbound share can be paid")
 	} else {
-		r.Rule("state = canonical dump of governance+ONT+ONG storage + freeze reference model ; transition = one real native call ; in every state: ONT.balanceOf(governance) (+ constant genesis stake in fixture U) = sum TotalStake.Stake + sum PenaltyStake(InitPos+AuthorizePos); per address TotalStake = sum of its authorize-record buckets + InitPos of its peers in the pool; no actor holds more ONT than it was given; unfrozen record <= reference model (new pos free until the epoch ends, unauthorised consensus pos frozen 2 epochs, candidate pos 1 epoch, baseline reset when a peer leaves the pool); every withdraw pays exactly its amount, <= the unfrozen record and <= the model; classes = event x ok/refused, state shapes")
+		r.Rule("state = canonical dump of governance+ONT+ONG storage + freeze reference model ; transition = one real native call ; in every state: ONT.balanceOf(governance) (+ constant genesis stake in fixture U) = sum TotalStake.Stake + sum PenaltyStake(InitPos+AuthorizePos); per address TotalStake = sum of its authorize-record buckets + InitPos of its peers in the pool; no actor holds more ONT than it was given; unfrozen record <= reference model (new pos free until the epoch ends, unauthorised consensus pos frozen 2 epochs, candidate pos 1 epoch, baseline reset when a peer leaves the pool); every withdraw call pays exactly the sum of its entries, and per named node the entries together are <= the unfrozen record before the call and <= the model; classes = event x ok/refused, state shapes")
 		r.Assume("fixture U: InitConfig records genesis InitPos as stake without ONT moving; demanded there: the difference is the same constant in every state, and the withdraw bound is not applied to genesis owners")
 		r.Assume("fixture F: the genesis peers' stake is paid into governance by a plain ONT transfer before the first commitDpos")
 	}
